@@ -1,3 +1,5 @@
 use std::collections::VecDeque;
 use vstd::std_specs::vecdeque::*;
 // @inside
+pub assume_specification<T, A: std::alloc::Allocator> [std::collections::VecDeque::<T, A>::is_empty] (v: &std::collections::VecDeque<T, A>) -> (r: bool)
+    ensures r == (v@.len() == 0);
